@@ -5,7 +5,7 @@ Real ibldsp.waveforms.compute_spike_features (and everything it calls) on symbol
 import numpy as np
 import z3
 
-from symex import arrays, core, pdfacade
+from symex import arrays, core, purity, pdfacade
 from symex.core import SInt, SReal, all_, and_, any_, implies, ite, not_, or_
 from symex.harness import Case, Twin
 
@@ -61,7 +61,9 @@ def _precondition(ctx, vals, N, T, C):
 
 
 def _features(ctx, w, arr, fs, rd):
+    before = purity.snap(arr)
     df = ctx.call("compute_spike_features", w.compute_spike_features, arr, fs=fs, recovery_duration_ms=rd)
+    purity.oblige_untouched(ctx, "waveform_array_left_untouched", arr, before)
     return df
 
 
@@ -196,7 +198,7 @@ def cases(tier):
                 continue
             cs.append(Case(f"laws_N{N}_T{T}_C{C}_k{k}", "case_laws", {"N": N, "T": T, "C": C, "k": k, "nan_channel": False}, timeout_s=3300, max_paths=200000))
     cs.append(Case("laws_nanpad_T4_C1_k1", "case_laws", {"N": 1, "T": 4, "C": 1, "k": 1, "nan_channel": True}, timeout_s=3300, max_paths=200000))
-    cs.append(Case("scaling_T4_C1", "case_scaling", {"T": 4, "C": 1, "k": 1}, timeout_s=3300, max_paths=200000))
+    cs.append(Case("scaling_T4_C1", "case_scaling", {"T": 4, "C": 1, "k": 1}, timeout_s=3300, max_paths=200000, solver_timeout_ms=600000))   # non-linear (value x scale): give the solver room on a loaded machine
     cs.append(Case("channel_swap_T4", "case_channel_swap", {"T": 4 if tier == "quick" else 5, "k": 1}, timeout_s=3300, max_paths=200000))
     cs.append(Case("batch_T4", "case_batch", {"T": 4, "k": 1}, timeout_s=3300, max_paths=200000))
     cs.append(Case("batch_T3_C2", "case_batch", {"T": 3, "k": 1, "C": 2}, timeout_s=3300, max_paths=200000))
@@ -228,10 +230,12 @@ def replay(case, params, cex):
 import ibldsp.waveforms as w
 x = np.array({x}, dtype=float).astype(np.float64)
 N, T, C, k = {N}, {T}, {C}, {k}
+xin = x.copy()
 try:
-    df = w.compute_spike_features(x.copy(), fs=1000.0, recovery_duration_ms=float(k))
+    df = w.compute_spike_features(xin, fs=1000.0, recovery_duration_ms=float(k))
 except Exception as e:
     reproduced(f'compute_spike_features raised {{type(e).__name__}}: {{e}} on {{x.tolist()}} (recovery offset {{k}} samples)')
+if not np.array_equal(xin, x, equal_nan=True): reproduced(f'compute_spike_features changed its input array: {{x.tolist()}} -> {{xin.tolist()}}')
 bad = []
 for n in range(N):
     r = df.iloc[n]; a = np.nan_to_num(x[n])
